@@ -312,6 +312,27 @@ GROUPS = {
              "exact critical_of_parts throttle_pre throttle_step throttle_post throttle_tail"),
         ],
     },
+    "stateobj": {
+        "import": "Haiway.Bridge.StateObj", "open": "Haiway.MiniPy Haiway.Bridge.StateObj",
+        "defs": {
+            "gSetattr": Target("src/haiway/state/structure.py", "State", "__setattr__", ["name", "value"], {}),
+            "gDelattr": Target("src/haiway/state/structure.py", "State", "__delattr__", ["name"], {}),
+            "gCopy": Target("src/haiway/state/structure.py", "State", "__copy__", [], {}),
+            "gDeepcopy": Target("src/haiway/state/structure.py", "State", "__deepcopy__", ["memo"], {}),
+            "gValidated": Target("src/haiway/state/structure.py", "StateAttribute", "validated", ["value"], {"default": 1},
+                                 {("self", "validator"): (210, ["@0"])}, globals_={"MISSING": "(Val.obj 900)"}),
+        },
+        "obligations": [
+            ("setattr_refused", ["gSetattr"], "Refuses gSetattr", "intro args fld w\n  unfold gSetattr\n  stateobj_eval"),
+            ("delattr_refused", ["gDelattr"], "Refuses gDelattr", "intro args fld w\n  unfold gDelattr\n  stateobj_eval"),
+            ("copy_is_self", ["gCopy"], "ReturnsSelf gCopy", "intro args fld w\n  unfold gCopy\n  stateobj_eval"),
+            ("deepcopy_is_self", ["gDeepcopy"], "ReturnsSelf gDeepcopy", "intro args fld w\n  unfold gDeepcopy\n  stateobj_eval"),
+            ("validated_once", ["gValidated"], "Validated gValidated",
+             "intro v dflt validator\n  unfold gValidated\n"
+             "  cases hs : v.same theMissing with\n  | false => cases hv : validator v <;> stateobj_eval\n"
+             "  | true => cases hv : validator dflt <;> stateobj_eval"),
+        ],
+    },
     "queue": {
         "import": "Haiway.Bridge.Queue", "open": "Haiway.MiniPy Haiway.Bridge.Queue",
         "defs": {
